@@ -25,6 +25,19 @@ inductive Denotes (m : Bytes) : Nat → List Bytes → Nat → Prop
       Denotes m ((b.toNat % 64) * 256 + b2.toNat) ls nx →
       Denotes m off ls (off + 2)
 
+/-- `Denotes` with the number of compression pointers followed made explicit (the walk from an offset is deterministic,
+so this number is a function of the message and the offset) -/
+inductive DenotesH (m : Bytes) : Nat → List Bytes → Nat → Nat → Prop
+  | root {off : Nat} : m[off]? = some 0 → DenotesH m off [] (off + 1) 0
+  | label {off : Nat} {b : UInt8} {ls : List Bytes} {next h : Nat} :
+      m[off]? = some b → 1 ≤ b.toNat → b.toNat ≤ 63 → off + 1 + b.toNat ≤ m.length →
+      DenotesH m (off + (b.toNat + 1)) ls next h →
+      DenotesH m off (slice m (off + 1) b.toNat :: ls) next h
+  | ptr {off : Nat} {b b2 : UInt8} {ls : List Bytes} {nx h : Nat} :
+      m[off]? = some b → 192 ≤ b.toNat → m[off + 1]? = some b2 →
+      DenotesH m ((b.toNat % 64) * 256 + b2.toNat) ls nx h →
+      DenotesH m off ls (off + 2) (h + 1)
+
 /-- octets the labels occupy on the wire, without the root label -/
 def wire : List Bytes → Nat
   | [] => 0
@@ -39,6 +52,13 @@ def dottedName (ls : List Bytes) : Bytes := joinFrom [] ls
 def encodeWire : List Bytes → Bytes
   | [] => [0]
   | l :: ls => b8 l.length :: l ++ encodeWire ls
+
+/-- **A well-formed name at `off`**: the bytes denote `ls` (any compression layout), the name obeys the RFC 1035 §2.3.4 limit
+of 255 octets on the wire INCLUDING the root label (`wire ls + 1 ≤ 255`), and its decoding follows at most `maxJumps` (128)
+compression pointers — the decoder's documented bound on pointers per name; a name has at most 127 labels and a compressor
+points at labels, so no encoder comes near it. -/
+def WellFormedName (m : Bytes) (off : Nat) (ls : List Bytes) (next : Nat) : Prop :=
+  ∃ h, DenotesH m off ls next h ∧ h ≤ Gen.Dns.maxJumps ∧ wire ls + 1 ≤ 255
 
 /-- labels a wire encoder accepts -/
 def ValidLabels (ls : List Bytes) : Prop := ∀ l ∈ ls, 1 ≤ l.length ∧ l.length ≤ 63
